@@ -139,9 +139,13 @@ def framing(ctx, driver):
     jobs = []
     maxL = 7 if ctx.tier == "quick" else 11
     for L in range(1, maxL + 1):
-        for S in range(1, L + 1):
+        # compute_full also supports frame_shift > frame_length (frames with gaps); the Kaldi left padding
+        # L//2 - S//2 must stay non-negative (np.pad rejects a negative pad)
+        for S in list(range(1, L + 1)) + [L + 1, L + 2, 2 * L + 1, 3 * L]:
             for centered, kaldi in ((False, False), (True, False), (True, True)):
-                for N in sorted({0, L // 2, L // 2 + 1, L, 2 * L + 1, r.randrange(0, 3 * L + 2)}):
+                if kaldi and S // 2 > L // 2:
+                    continue
+                for N in sorted({0, L // 2, L // 2 + 1, L, 2 * L + 1, r.randrange(0, 3 * L + 2), S, 2 * S + 1, S + S // 2, S + S // 2 + 1}):
                     j = r.randrange(L)
                     jobs.append((L, S, centered, kaldi, N, j))
     r.shuffle(jobs)
